@@ -19,6 +19,17 @@ NA = {
 
 CLAIMED = {
  # id: (level, technique, text, note, design_ref)
+ "C06": ("exploration",
+         "deterministic simulation: seeded storage corruption, truncation, literal stressors and limit scaling of stored sources through the real 3-goroutine file pipeline under process supervision",
+         "Seeded search over damaged stored sources (byte flip/drop/insert, token delete/duplicate/replace/transpose, truncation), literal stressors at every literal position (leading zeros, bare 0x, 17-21 digit integers, 3-4 digit exponents, every two-byte escape, \\x/\\u/\\U/octal forms, raw non-UTF-8 bytes), programs scaled to just below/at/above each implementation limit (16 block slots, 1024 operand slots with locals and temporaries, expression and parenthesis nesting, 16-bit jump distance, repeat counts), raw bytes and token soup. Each is run in memory under recover and through ParseFile/InterpretFile/UnmarshalFile in a synctest bubble; a panic in a library goroutine kills the worker and is attributed by the parent through the BEGIN/END journal, confirmed and minimised in child processes; hangs are decided by quiescence, CPU loops by a wall-clock supervisor.",
+         "Inputs whose legitimate result exceeds 2^20 bytes or nesting beyond 10^4 are excluded as the property states (the generators do not produce them).",
+         "6/C06"),
+ "C12": ("exploration",
+         "deterministic simulation in a -race build: seam-gated pipeline with free-running internals, plus N ungated concurrent callers; oracle = Go race detector + solo-result equality",
+         "The same simulator built with the race detector. Part 1: multi-chunk inputs with many syntax errors spread over many small reads (and valid / early-failing inputs) through the real ParseFile goroutines; only the seams are gated, so lexer and parser run free inside each quiescence window and the detector sees the library's true happens-before relation (a scheduler that serialised everything would hide every race). Part 2: 2-4 callers released from one barrier, never gated against each other, each running a seeded list of Parse/Interpret/ParseFile/Execute and Dump of one shared Prog (with a lock-free per-goroutine output writer)/LoadProg/Unmarshal/Bind of a shared binding; each result must equal the same call made alone. A report counts iff it has a frame in package bcl.",
+         "The race detector has no false positives; it can miss a race whose two accesses are never both executed in one run. Replay reproduces the workload exactly and the report with high probability.",
+         "6/C12"),
+
  "C16": ("exploration",
          "deterministic simulation: one input re-run under different seeded gate schedules, call histories, repetitions, and in fresh worker processes at GOMAXPROCS 1/4/16 with digest comparison",
          "The dimensions that must not matter are varied while the input is held fixed: gate schedule of the file pipeline (4 seeded schedules per input), GOMAXPROCS 1/4/16 and fresh processes (new hash seed each; the parent compares per-run outcome digests across the three passes), earlier calls in the same process (history), in-process repetition (32 quick / 256 thorough for inputs that end in Bind), and Execute twice on one Prog with Dump before/between/after. Workload includes Unmarshal targets built to expose order dependence (keys colliding on one field, twin inner blocks, several faulty fields, a tag and a name that both match). Map iteration order has no seam: it is sampled by repetition and fresh processes, not scheduled - stated in the evidence.",
